@@ -164,13 +164,25 @@ static void check_rule(Rng& rng, unsigned n, double a, double b, bool reversed)
 			(void) Integrate_Gauss_Legendre([](double x) { return x; }, fa, fa + fw, n);
 		}
 		double v1 = Integrate_Gauss_Legendre(traced(f, &tr), a1, b1, n);
-		require("integrand-evaluated-only-at-the-n-nodes", tr.n == n && tr.inside(a, b), [&] { return pj().i("evaluations", (long long) tr.n).d("xmin", tr.xmin).d("xmax", tr.xmax); });
+		{
+			// informational: an n-point rule needs n evaluations inside the interval (the property states the value, not the evaluation count)
+			ClauseStat& cs = clause("integrand-evaluated-only-at-the-n-nodes(informational)");
+			cs.n++;
+			if(tr.n == n && tr.inside(a, b))
+				cs.nontrivial++;
+		}
 		double v2 = Integrate_Gauss_Legendre(f, rw);
 		std::vector<double> fv(n);
 		for(unsigned i = 0; i < n; i++)
 			fv[i] = f(rw[i][0]);
 		double v3 = Integrate_Gauss_Legendre(fv, rw);
-		require("three-overloads-agree-bit-for-bit", same_bits(v1, v2) && same_bits(v2, v3), [&] { return pj().d("(f,a,b,n)", v1).d("(f,rule)", v2).d("(values,rule)", v3); });
+		{
+			// "the same value for the same rule": equal up to the order in which the n products are summed
+			double S = 0;
+			for(unsigned i = 0; i < n; i++)
+				S += std::fabs(rw[i][1] * fv[i]);
+			judge("three-overloads-agree", std::max(std::fabs(v1 - v2), std::fabs(v2 - v3)), 4 * n * EPS * S + 1e-300, [&] { return pj().d("(f,a,b,n)", v1).d("(f,rule)", v2).d("(values,rule)", v3); });
+		}
 		// and the value is the exact integral of the polynomial part plus that of sin(3u) (odd: 0), when the degree fits
 		if(c.size() <= 2 * n)
 		{
